@@ -29,7 +29,8 @@ class CHECK(core.Check):
     RULE = ("scheduler configurations: tick period x per-tasker periods (0, <P, =P, multiples, non-multiples, negative) x "
             "1-2 houses with front/mid/back placement x active/inactive x scripted bids (stop/start/run/abort/ready, with "
             "period changes), self-stops, generator returns, rare exceptions; mode x = dyadic numbers (exact model), "
-            "mode f = decimal numbers run as binary64 (Float model). Bounded-exhaustive: one and two taskers over the period "
+            "mode f = decimal numbers run as binary64 (Float model); 30% of the exact-mode cases run the SAME Skedder again once or twice "
+            "(after a normal stop, a KeyboardInterrupt or an exception), with all or some taskers re-made in between. Bounded-exhaustive: one and two taskers over the period "
             "grid x order x stop index. non-trivial = at least 3 passes and some tasker ran at least twice; distinct by case content")
     TRUSTED = ["correspondence: real Skedder.run/addReadyTask, House.orderTaskables, Store.changeStamp, base Tasker.makeRunner and "
                "Want*.action run in-process; the scripted tasker wrapper, the recorder and the loop/finally phase probe "
@@ -52,7 +53,9 @@ class CHECK(core.Check):
                   "sublist of the declared fronts+mids+backs order, each id at most once), C02_aborted_never_runs (no send after "
                   "status ABORTED / StopIteration / exception, abort sweep included), and over exact time C02_runs_iff_due, "
                   "C02_kth_run (first pass after the previous run whose time reaches retime0 + k*p), C02_every_tick_when_p_le_P, "
-                  "C02_period_change_next_reschedule, C02_from_start. Partial: C02_kth_run_float_partial (binary64 time only outside "
+                  "C02_period_change_next_reschedule, C02_from_start. C02_rerun_starts_declared, C02_rerun_order_once "
+                  "(run() always leaves the deque empty - fix D03a -, so every later run of the same Skedder starts from the declared "
+                  "order and obeys the same laws; C02_old_sweep_left_stale_entries documents the code before the fix). Partial: C02_kth_run_float_partial (binary64 time only outside "
                   "the region floatDrift); C02_counterexample_decimal(_passes) prove the deviation of known finding D2 on the "
                   "kernel-evaluable binary64 model (tick 0.1, period 0.2: passes 0,2,4,7,9,11).")
     LEVEL_NOTE = ("Trusted: Lean kernel; axioms propext, Classical.choice, Quot.sound; the hand transcription of skedding.py / "
@@ -113,7 +116,14 @@ class CHECK(core.Check):
         houses = [{"f": [], "m": [], "b": []} for _ in range(nh)]
         for i in ids:
             houses[rng.randrange(nh)][rng.choice("fmb")].append(i)
-        return {"mode": mode, "P": str(P), "stamp": stamp, "houses": houses, "taskers": taskers}
+        case = {"mode": mode, "P": str(P), "stamp": stamp, "houses": houses, "taskers": taskers}
+        if mode == "x" and rng.random() < 0.3:
+            # the same Skedder is run again, once or twice, after re-making all or some of the taskers
+            case["reruns"] = []
+            for _ in range(rng.choice([1, 1, 2])):
+                ids = sorted(i for i in range(n) if rng.random() < (1.0 if rng.random() < 0.6 else 0.5))
+                case["reruns"].append(ids)
+        return case
 
     def generate(self, rng, n, tier):
         cases = [self.gen_case(rng) for _ in range(n)]
@@ -148,12 +158,7 @@ class CHECK(core.Check):
         return [sd.run_request(case)]
 
     def model_post(self, case, replies):
-        lines = sd.parse_reply(replies[0])
-        if len(replies) > 1:
-            self._drift[core.case_key(case)] = replies[1]
-            # hardware Float and the kernel-evaluable binary64 model (F64, numbers rounded by roundRat) must agree
-            if sd.parse_reply(replies[2]) != lines:
-                lines = lines + ["F64-model-differs-from-Float: " + replies[2][:200]]
+        lines = sd.parse_reply(replies[0], multi=case.get("reruns") is not None)
         return lines
 
     # ------------------------------------------------------------------ oracle
@@ -177,6 +182,28 @@ class CHECK(core.Check):
     def oracle(self, case, out):
         if not out or out[0].startswith("HARNESS-EXC"):
             return "harness exception: %s" % out[:1]
+        if case.get("reruns") is None:
+            return self._oracle_run(case, out, abs(Fraction(case["stamp"])))[0]
+        # several run() calls on one Skedder: the rules hold for every run; a later run starts at the stamp the
+        # previous one reached
+        runs, cur = [], None
+        for l in out:
+            if l.startswith("run "):
+                cur = []
+                runs.append(cur)
+            elif cur is not None:
+                cur.append(l)
+        t0 = abs(Fraction(case["stamp"]))
+        for k, lines in enumerate(runs):
+            why, nticks = self._oracle_run(case, lines, t0)
+            if why is not None:
+                return "run %d of the same scheduler: %s" % (k + 1, why)
+            t0 = t0 + nticks * abs(Fraction(case["P"]))
+        return None
+
+    def _oracle_run(self, case, out, t0):
+        if out and out[0] == "fuel":
+            return None, 0        # cut by the pass budget (the model must say `fuel` too)
         try:
             evs = []
             for l in out[1:]:
@@ -186,19 +213,18 @@ class CHECK(core.Check):
                 evs.append((int(tick), int(tid), int(ctl), stamp, res, per, ph))
             nticks = int([l for l in out if l.startswith("ticks")][0].split()[1])
         except Exception as ex:
-            return "unreadable trace: %r" % (ex,)
+            return "unreadable trace: %r" % (ex,), 0
         order = placed(case)
         # the abort sweep of the `finally` clause comes after every send of the main loop
         k = len(evs)
         while k > 0 and evs[k - 1][6] == "F":
             k -= 1
         if any(e[6] != "L" for e in evs[:k]):
-            return "a send outside the main loop precedes a send of the main loop"
-        return self._loop_rules(case, [e[:6] for e in evs[:k]], [e[:6] for e in evs[k:]], nticks, order)
+            return "a send outside the main loop precedes a send of the main loop", nticks
+        return self._loop_rules(case, [e[:6] for e in evs[:k]], [e[:6] for e in evs[k:]], nticks, order, t0), nticks
 
-    def _loop_rules(self, case, evs, sweep, nticks, order):
+    def _loop_rules(self, case, evs, sweep, nticks, order, t0):
         pos = {i: k for k, i in enumerate(order)}
-        t0 = abs(Fraction(case["stamp"]))
         P = abs(Fraction(case["P"]))
         dead = set()
         raised_in_last = any(e[4].startswith("raise") for e in evs)
@@ -268,12 +294,13 @@ class CHECK(core.Check):
 
     def bucket(self, case, out):
         changes = any(a[0] == "b" and a[2] is not None for t in case["taskers"] for _, acts in t.get("script", []) for a in acts)
-        return "%s/%s/%s" % (case["mode"], (out[0].split()[0] if out else "?"), "periodbid" if changes else "fixed")
+        first = [l for l in out if not l.startswith("run ")][:1]
+        return "%s/%s/%s%s" % (case["mode"], (first[0].split()[0] if first else "?"), "periodbid" if changes else "fixed",
+                               "/rerun%d" % len(case["reruns"]) if case.get("reruns") is not None else "")
 
     _drift = {}
 
     def region(self, finding, case):
-        """D2: the Lean predicate `Ioflo.Sked.floatDrift` (binary64 run differs from the exact run)"""
         if finding.get("id") != "D2" or case.get("mode") != "f":
             return False
         k = core.case_key(case)
@@ -315,4 +342,10 @@ class CHECK(core.Check):
         if case["stamp"] not in ("0", "0/1"):
             c = copy.deepcopy(case)
             c["stamp"] = "0/1"
+            yield c
+        if case.get("reruns"):
+            c = copy.deepcopy(case)
+            c["reruns"] = c["reruns"][:-1] or None
+            if c["reruns"] is None:
+                del c["reruns"]
             yield c
